@@ -7,6 +7,18 @@ import Rs1090.Spec.Dedup
 namespace Rs1090.Dedup
 open Rs1090.Spec.Dedup (firstT closes WellFormed)
 
+/-! ### What the proofs need of the operators generated from dedup.rs (`Gen/Dedup.lean`)
+
+These three lemmas are where a changed operator or constant of `deduplicate_messages` stops the proofs
+(they are restated as `Props/C10.lean: jet_loop_as_modelled`). -/
+
+theorem notExpired_eq (curtime t : Nat) : Gen.Dedup.Jet.notExpired curtime t = decide (t < curtime) := by
+  simp [Gen.Dedup.Jet.notExpired]
+
+theorem expiry_eq (t w : Nat) : Gen.Dedup.Jet.expiry t w = t + w := rfl
+
+theorem isFirst_eq (len : Nat) : Gen.Dedup.Jet.isFirst len = decide (len = 1) := rfl
+
 /-! ### `frameLt` / `keyLt` are strict total orders -/
 
 theorem frameLt_irrefl : ∀ a : Frame, frameLt a a = false
@@ -251,7 +263,7 @@ theorem expire_spec (w t : Nat) : ∀ (n : Nat) (s : State), Inv w s → s.heap.
   | succ n ih =>
     intro s hinv hlen
     obtain ⟨c, h⟩ := s
-    simp only [expire]
+    simp only [expire, notExpired_eq, decide_eq_true_eq]
     cases hp : popMin h with
     | none =>
       have hh : h = [] := popMin_none.mp hp
@@ -415,7 +427,7 @@ theorem stepG_spec {w : Nat} {s : State} (a : Arrival) (hinv : Inv w s) :
     ((stepG w s a).2 ++ (stepG w s a).1.cache).Perm (push s.cache a) ∧
     (∀ g ∈ (stepG w s a).2, closes w a.t g = true) ∧
     (stepG w s a).2.Pairwise (fun g h => keyLt (keyOf w g) (keyOf w h) = true) := by
-  simp only [stepG]
+  simp only [stepG, isFirst_eq, expiry_eq, decide_eq_true_eq]
   exact expire_spec w a.t _ _ (push_inv a hinv) (Nat.lt_succ_self _)
 
 
